@@ -39,9 +39,10 @@ const (
 	DRead       // judge the contents through every member
 	DTick
 	DLag // macro: member A dies, the keys are written through the others, every live member compacts, A starts again
+	DJoinLate // the member left out at formation joins: allocators extend the under-replicated partitions they lead by it
 )
 
-var dNames = []string{"insert", "update", "remove", "batchInsert", "batchRemove", "kill", "start", "restartAll", "snapshot", "read", "tick", "lag"}
+var dNames = []string{"insert", "update", "remove", "batchInsert", "batchRemove", "kill", "start", "restartAll", "snapshot", "read", "tick", "lag", "joinLate"}
 
 type DStep struct {
 	K    int   `json:"k"`
@@ -53,7 +54,9 @@ type DStep struct {
 }
 
 type DCase struct {
-	Members int     `json:"members"`
+	Members int `json:"members"`
+	// Late: the last member joins at a joinLate step of the history (the dataset is created without it)
+	Late bool `json:"late,omitempty"`
 	P       int     `json:"p"`
 	R       int     `json:"r"`
 	Steps   []DStep `json:"steps"`
@@ -75,7 +78,7 @@ func (c DCase) String() string {
 			p = append(p, dNames[s.K])
 		}
 	}
-	return fmt.Sprintf("members=%d partitions=%d replication=%d: %s", c.Members, c.P, c.R, strings.Join(p, " "))
+	return fmt.Sprintf("members=%d late=%v partitions=%d replication=%d: %s", c.Members, c.Late, c.P, c.R, strings.Join(p, " "))
 }
 
 const dKeys = 10
@@ -83,9 +86,13 @@ const dKeys = 10
 func genDCase(t *rapid.T) DCase {
 	c := DCase{Members: rapid.SampledFrom([]int{1, 2, 3, 3, 3}).Draw(t, "members"), P: rapid.IntRange(1, 3).Draw(t, "p")}
 	c.R = rapid.IntRange(1, 3).Draw(t, "r")
+	c.Late = c.Members >= 2 && rapid.IntRange(0, 2).Draw(t, "late") == 0
+	if c.Late && rapid.Bool().Draw(t, "fullrepl") {
+		c.R = c.Members // under-replicated until the late member has joined
+	}
 	step := rapid.Custom(func(t *rapid.T) DStep {
 		k := rapid.SampledFrom([]int{DInsert, DInsert, DInsert, DInsert, DInsert, DUpdate, DUpdate, DRemove, DRemove, DBatchInsert, DBatchInsert, DBatchRemove,
-			DKill, DKill, DStart, DStart, DRestartAll, DSnapshot, DSnapshot, DRead, DTick, DLag}).Draw(t, "k")
+			DKill, DKill, DStart, DStart, DRestartAll, DSnapshot, DSnapshot, DRead, DTick, DLag, DJoinLate}).Draw(t, "k")
 		s := DStep{K: k, Via: rapid.IntRange(0, c.Members-1).Draw(t, "via"), A: rapid.IntRange(0, c.Members-1).Draw(t, "a")}
 		switch k {
 		case DInsert, DUpdate, DRemove:
@@ -135,7 +142,12 @@ func runDCluster(c DCase, o *pbt.Obs) *pbt.Failure {
 	sim.TakeUnexpectedFatal()
 	cl := ctl.New(c.Members)
 	defer cl.Close()
-	if why := cl.Form(); why != "" {
+	founders := c.Members
+	if c.Late {
+		founders--
+	}
+	member := func(i int) bool { return cl.Nodes[i].Joined } // has joined the cluster (it may be down)
+	if why := cl.FormFirst(founders); why != "" {
 		o.Inconclusive(why)
 		return nil
 	}
@@ -148,7 +160,7 @@ func runDCluster(c DCase, o *pbt.Obs) *pbt.Failure {
 	up := func(i int) bool { return cl.Nodes[i].Up() }
 	allUp := func() bool {
 		for i := 0; i < c.Members; i++ {
-			if !up(i) {
+			if member(i) && !up(i) {
 				return false
 			}
 		}
@@ -253,6 +265,9 @@ func runDCluster(c DCase, o *pbt.Obs) *pbt.Failure {
 			o.Label("read-skipped-not-settled")
 			var d []string
 			for i := 0; i < c.Members; i++ {
+				if !member(i) {
+					continue
+				}
 				ds := cl.Dataset(i, dsId)
 				if ds == nil {
 					d = append(d, fmt.Sprintf("member %d: no dataset", i))
@@ -283,6 +298,9 @@ func runDCluster(c DCase, o *pbt.Obs) *pbt.Failure {
 			}
 		}
 		for i := 0; i < c.Members; i++ {
+			if !member(i) {
+				continue
+			}
 			ds := cl.Dataset(i, dsId)
 			if ds == nil {
 				return nil
@@ -318,6 +336,9 @@ func runDCluster(c DCase, o *pbt.Obs) *pbt.Failure {
 				}
 			}
 			for i := 0; i < c.Members; i++ {
+				if !member(i) {
+					continue
+				}
 				ds := cl.Dataset(i, dsId)
 				ctx, cancel := context.WithTimeout(context.Background(), 2*time.Second)
 				n, err := ds.Len(ctx)
@@ -486,13 +507,16 @@ func runDCluster(c DCase, o *pbt.Obs) *pbt.Failure {
 			}
 		case DKill:
 			a := s.A % c.Members
-			live := 0
+			live, members := 0, 0
 			for i := 0; i < c.Members; i++ {
 				if up(i) {
 					live++
 				}
+				if member(i) {
+					members++
+				}
 			}
-			if !up(a) || live <= 1 || live < c.Members {
+			if !up(a) || live <= 1 || live < members {
 				continue // one member down at a time
 			}
 			if !cl.Kill(a) {
@@ -507,7 +531,7 @@ func runDCluster(c DCase, o *pbt.Obs) *pbt.Failure {
 		case DStart:
 			started := false
 			for i := 0; i < c.Members; i++ {
-				if !up(i) {
+				if member(i) && !up(i) {
 					if err := cl.Start(i, i == 0); err != nil {
 						return pbt.Failf("C03:restart-fails", "%s: member %d does not start over its store: %v; history: %s", where, i, err, c.String())
 					}
@@ -535,6 +559,9 @@ func runDCluster(c DCase, o *pbt.Obs) *pbt.Failure {
 			}
 			time.Sleep(200 * time.Microsecond)
 			for i := 0; i < c.Members; i++ {
+				if !member(i) {
+					continue
+				}
 				if err := cl.Start(i, i == 0); err != nil {
 					return pbt.Failf("C03:restart-fails", "%s: member %d does not start over its store: %v; history: %s", where, i, err, c.String())
 				}
@@ -565,6 +592,30 @@ func runDCluster(c DCase, o *pbt.Obs) *pbt.Failure {
 			if f := judge(where); f != nil {
 				return f
 			}
+		case DJoinLate:
+			late := c.Members - 1
+			if !c.Late || member(late) || !allUp() || !up(0) {
+				continue
+			}
+			if !cl.ElectZero(1500) {
+				continue
+			}
+			if why := cl.JoinSettled(late); why != "" {
+				o.Inconclusive(why)
+				return nil
+			}
+			o.Label("member-joined-late")
+			// the joiner's replicas (of partitions that were under-replicated) have caught up before anything else happens to it
+			if f := judge(where); f != nil {
+				return f
+			}
+			ds := cl.Dataset(late, dsId)
+			for p := 0; ds != nil && p < c.P; p++ {
+				if hosts(late, ds, p) {
+					o.Label("late-member-became-a-replica")
+					break
+				}
+			}
 		case DTick:
 			cl.Tick(s.N)
 		}
@@ -579,7 +630,7 @@ func runDCluster(c DCase, o *pbt.Obs) *pbt.Failure {
 	}
 	// the end of every history: everybody comes back and is judged
 	for i := 0; i < c.Members; i++ {
-		if !up(i) {
+		if member(i) && !up(i) {
 			if err := cl.Start(i, i == 0); err != nil {
 				return pbt.Failf("C03:restart-fails", "end of history: member %d does not start over its store: %v; history: %s", i, err, c.String())
 			}
